@@ -1,13 +1,13 @@
 CONSTANTS
   NR = 3
-  NC = 2
-  NV = 2
-  WPV = 2
-  CPLX = 2
+  NC = 1
+  NV = 1
+  WPV = 1
+  CPLX = 1
   Ascii = TRUE
   PerLine = 3
-  RowOffset = 0
-  WriterOnly = TRUE
+  RowOffset = 40000
+  WriterOnly = FALSE
   Export = TRUE
 INIT Init
 NEXT Next
